@@ -344,6 +344,35 @@ func judge(c Case, o *vh.Obs) {
 			return
 		}
 	}
+	// (1b) a different key pair that merely carries the signer's key id must be
+	// refused by the same in-memory envelope that has just verified with the real key
+	if expectLib && c.PresentForm == "" {
+		other := keys[(c.Present+1)%len(keys)].Public()
+		data, _ := json.Marshal(other)
+		var m map[string]any
+		_ = json.Unmarshal(data, &m)
+		m["kid"] = pub.ID()
+		data, _ = json.Marshal(m)
+		impostor := new(dsig.PublicKey)
+		if err := json.Unmarshal(data, impostor); err == nil {
+			o.Class("kid-collision-probe")
+			if env.Verify(impostor) == nil {
+				o.Failf("verify:library:accepted-other-key-with-same-kid", "after verifying with the signer's key, Envelope.Verify accepts a different key pair that carries the signer's key id (%s)", describe(c))
+				return
+			}
+			for i, sg := range env.Signatures {
+				if env.VerifySignature(sg, impostor) == nil {
+					o.Failf("verify:library-single:accepted-other-key-with-same-kid", "VerifySignature(#%d) accepts a different key pair that carries the signer's key id (%s)", i, describe(c))
+					return
+				}
+			}
+			// and the real key still verifies afterwards
+			if env.Verify(pub) != nil {
+				o.Failf("verify:library:rejected-signed-content", "the signer's key no longer verifies after a failed attempt with another key (%s)", describe(c))
+				return
+			}
+		}
+	}
 	// (2) command-line paths additionally require the envelope to validate
 	valid := env.Validate() == nil
 	expectCLI := expectLib && valid
@@ -559,7 +588,7 @@ func enumTamper(yield func(Case) bool) {
 func init() {
 	vh.OnExit(goblexec.Stop)
 	vh.Describe(
-		"Histories over every signable example invoice: 0-3 header decorations (links, tags, meta, notes), a signature by one of three keys, then 0-5 post-signing steps drawn from: add stamp / link / tag / meta / notes, alter uuid / digest, remove a tag / stamp / link, edit the document with and without recalculation, serialise+parse, sign again (any key), unsign; finally verification with the signer's key (75%) or another (a fifth of the time written as a JWK without the optional key id), through Envelope.Verify, VerifySignature, cli.Verify, the bulk verify action (in process) and - for a tenth of the cases and the enumerated tamper scenarios - the `gobl verify -k` executable, POST /verify and POST /bulk of a running `gobl serve`. Model: the header JSON recorded at each signing; expected = signed AND every signature made with the presented key AND the current header still contains each signed header (uuid, dig, stamps, links, tags, meta, notes); command-line paths additionally need the envelope to validate. Every path must return exactly the expected verdict. Non-trivial: the history ends signed.",
+		"Histories over every signable example invoice: 0-3 header decorations (links, tags, meta, notes), a signature by one of three keys, then 0-5 post-signing steps drawn from: add stamp / link / tag / meta / notes, alter uuid / digest, remove a tag / stamp / link, edit the document with and without recalculation, serialise+parse, sign again (any key), unsign; finally verification with the signer's key (75%) or another (a fifth of the time written as a JWK without the optional key id), through Envelope.Verify, VerifySignature, cli.Verify, the bulk verify action (in process) and - for a tenth of the cases and the enumerated tamper scenarios - the `gobl verify -k` executable, POST /verify and POST /bulk of a running `gobl serve`. Model: the header JSON recorded at each signing; expected = signed AND every signature made with the presented key AND the current header still contains each signed header (uuid, dig, stamps, links, tags, meta, notes); command-line paths additionally need the envelope to validate. Every path must return exactly the expected verdict; after an accepted verification a different key pair carrying the signer's key id must be refused by the same in-memory envelope. Non-trivial: the history ends signed.",
 		"signatures are random (ECDSA); only verdicts are compared",
 		"whether the envelope validates is taken from Envelope.Validate (its rules are property C10)",
 	)
